@@ -7,7 +7,7 @@ CONSTANTS
   MaxCuts = 99
   DEV_RehashDebounce = TRUE
   DEV_LeaderKeepsAdoptedRing = TRUE
-  DEV_SelfExcludedCrash = TRUE
+  DEV_SelfExcludedCrash = FALSE
 INIT MInit
 NEXT MNext
 CHECK_DEADLOCK FALSE
